@@ -1,9 +1,9 @@
 package props
 
 import (
-	"strings"
 	"fmt"
 	"path/filepath"
+	"strings"
 	"verif/checker/internal/skel"
 
 	"verif/checker/internal/core"
